@@ -5,12 +5,13 @@ import Ggql.Spec.Json
 namespace Ggql.Driver.C07
 open Ggql Ggql.Position
 
-/-- D21 (hand-set): the field position is sampled after the look-ahead byte -/
-def cfgCur : Cfg := {}
+/-- D21: the field position is sampled after the look-ahead byte (read from exeParser.readField by the translator) -/
+def cfgCurOf (tb : Tables) : Cfg := { sampleAfterLookahead := tb.fieldPosAfterLookahead }
 
 def encLoc (l : Int × Int) : T := .node "loc" [T.ofInt l.1, T.ofInt l.2]
 
-def handle (_tb : Tables) (c impl : T) : String :=
+def handle (tb : Tables) (c impl : T) : String :=
+  let cfgCur := cfgCurOf tb
   match c with
   | .node "c07loc" [src, off, len] =>
     (match src.asChars, off.asNat, len.asNat with
@@ -42,6 +43,6 @@ def handle (_tb : Tables) (c impl : T) : String :=
      | _, _ => "bad-op")
   | _ => "bad-op"
 
-def flags (_tb : Tables) : List (String × Bool) := [("D21", cfgCur.sampleAfterLookahead)]
+def flags (tb : Tables) : List (String × Bool) := [("D21", (cfgCurOf tb).sampleAfterLookahead)]
 
 end Ggql.Driver.C07
